@@ -7,7 +7,7 @@ use crate::gen;
 use crate::refattr;
 use crate::reftree;
 use crate::rng::{fnv, mix};
-use crate::structgen::{self, Doc, Ns};
+use crate::structgen::{self, Doc};
 use serde_derive::{Deserialize, Serialize};
 use serde_json::Value;
 
